@@ -430,6 +430,17 @@ static Verdict run(const Case& c)
       e.count("reference_without_verdict");   // judged by C01/C02
       return v;
    }
+   {
+      // the uninterrupted solve must itself agree with the planted class; if it does not (ill-posed instances such as an
+      // optimal LP with a recession direction of zero cost, which C01/C02 adjudicate with z3) the LP is not used here
+      int truth = c.pl.cls == CL_INFUNB ? CL_INF : c.pl.cls;
+      bool okr = (ref.cls == truth) || (ref.cls == CL_INFUNB && (truth == CL_INF || truth == CL_UNB)) || (c.pl.cls == CL_INFUNB && ref.cls == CL_UNB);
+      if(!okr)
+      {
+         e.count("reference_disagrees_with_planted_class");   // judged by C01/C02
+         return v;
+      }
+   }
    int N = ref.iters;
    int aborted = 0;
    // ---- iteration limit k = 0..N (all k when N <= 80, else 80 stratified)
